@@ -142,6 +142,21 @@ func vCtrOf(uuid string) int {
 	return 0
 }
 
+// a process of c is alive on an instance the pool has not identified yet (worker state "unknown"),
+// and on no other: the situation of the known finding KF-C14-1
+func (s *vSim) liveOnUnknown(c int) bool {
+	n := 0
+	for w := 1; w <= s.nw; w++ {
+		if s.procs[w][c] {
+			if s.wk[w].st != "unknown" {
+				return false
+			}
+			n++
+		}
+	}
+	return n > 0
+}
+
 func (s *vSim) reach(w int) bool { return s.exists[w] && s.booted[w] && !s.broken[w] }
 
 func (s *vSim) hasRunner(c int) bool {
@@ -334,7 +349,7 @@ func (p vSimPool) StartContainer(it arvados.InstanceType, ctr arvados.Container)
 		if e := s.q[c]; e != nil && e.in {
 			qs, qp = e.state, e.prio
 		}
-		s.ev(map[string]interface{}{"ev": "startcall", "c": c, "w": w, "bad": bad, "qs": qs, "qp": qp})
+		s.ev(map[string]interface{}{"ev": "startcall", "c": c, "w": w, "bad": bad, "qs": qs, "qp": qp, "unk": s.liveOnUnknown(c)})
 		return true
 	}
 	return false
